@@ -322,7 +322,7 @@ def exportcomm(vals, bn, nm=None):
     rnd = random.randint(0,vc_p-1)
     vc_declare_block(nm, valsp, rnd)
     
-    runqapinput.writecomm(bn, [val.value for val in valsp], rnd)
+    runqapinput.writecomm(bn, [int(val.value) % vc_p for val in valsp], rnd) # field elements, as in the wire file
     runqapgen.ensure_mkey(-1, len(vals))
     runqapinput.run(bn)
 
